@@ -234,6 +234,44 @@ func runC16(c *Ctx, r *Run) {
 				keyScalar = recvOf(call)
 			}
 		}
+		if keyScalar == nil {
+			// the decoding lives in a helper of the key type (`d, err := sk.scalar()`): the scalar is what it returns
+			allInstrs(sign, func(in ssa.Instruction) {
+				call, ok := in.(*ssa.Call)
+				if !ok || keyScalar != nil {
+					return
+				}
+				h := localHelperOf(call)
+				if h == nil {
+					return
+				}
+				fed := false
+				for _, a := range call.Call.Args {
+					if containsField(paramFields(sign, a), "recv") {
+						fed = true
+					}
+				}
+				if !fed {
+					return
+				}
+				for _, uc := range callsNamed(h, "UnmarshalBinary") {
+					obj := recvOf(uc)
+					for _, ret := range returnsOf(h) {
+						if len(ret.Results) > 0 && !isNilConst(ret.Results[0]) && sameObject(resolveLoad(ret.Results[0]), obj) {
+							// the value of result 0 at the call site
+							for _, ref := range *call.Referrers() {
+								if ex, isEx := ref.(*ssa.Extract); isEx && ex.Index == 0 {
+									keyScalar = ex
+								}
+							}
+							if len(ret.Results) == 1 {
+								keyScalar = call
+							}
+						}
+					}
+				}
+			})
+		}
 		maskOK := false
 		for _, call := range taggedHashCalls(c, sign) {
 			if t, ok := constString(call.Call.Args[0]); !ok || t != "BIP0340/nonce" {
